@@ -466,3 +466,57 @@ Proof.
   destruct (group_accept al (uniforms tp)) as [[acc us']|]; [|reflexivity].
   destruct (Nat.eqb (length acc) (length rows)); [|reflexivity]. now rewrite gmix_R.
 Qed.
+
+(** (b) for one call of a rational run: the rows after the call are the previous rows or the proposed ones (previous + std * normal,
+    C03's [add_noise_rows]), row j being the proposal exactly when u_j < exp(-D_j), D_j = change of attachment + inverse-temperature
+    weighted change of the variable's own regularity, both read on the state in which only that variable is replaced *)
+Theorem gstep_decision_Q add mul att regv v tinv sds st tp st' tp' acc :
+  gstep Q add mul decideQR att regv v tinv sds st tp = Some (st', tp', acc) ->
+  exists rows rows',
+    nth_error st v = Some (Nd rows) /\
+    add_noise_rows add mul sds rows (normals tp) = Some (rows', normals tp') /\
+    st' = set_nth v (Nd (gmix Q acc rows rows')) st /\
+    length acc = length rows /\ length rows' = length rows /\
+    uniforms tp' = skipn (length rows) (uniforms tp) /\ normals tp' = skipn (size (Nd rows)) (normals tp) /\
+    (forall j o n b, nth_error rows j = Some o -> nth_error rows' j = Some n -> nth_error acc j = Some b ->
+       nth_error (gmix Q acc rows rows') j = Some (if b then n else o)) /\
+    (forall j u a b c d,
+       nth_error (uniforms tp) j = Some u ->
+       nth_error (att st) j = Some a -> nth_error (att (set_nth v (Nd rows') st)) j = Some b ->
+       nth_error (regv v st) j = Some c -> nth_error (regv v (set_nth v (Nd rows') st)) j = Some d ->
+       exists dj, nth_error acc j = Some dj /\
+         (dj = true <-> (Q2R u < exp (- ((Q2R b - Q2R a) + Q2R tinv * (Q2R d - Q2R c))))%R)).
+Proof.
+  intros H. destruct (gstep_sound _ _ _ _ _ _ _ _ _ _ _ _ _ _ H) as (rows & rows' & Ev & En & E & La & Lr & _ & _ & _ & U & _ & N & Hd).
+  exists rows, rows'. repeat split; auto.
+  - intros j o n b Ho Hn Hb. eapply gmix_nth; eauto.
+  - intros j u a b c d Hu Ha Hb Hc Hdd. exists (decideQR u a b c d tinv). split; [eapply Hd; eauto|]. apply decideQR_iff.
+Qed.
+
+(** * Non-vacuity: a run of 3 iterations (burn-in 1), two variables (one scalar, one of 2 coordinates) of two individuals, shuffled *)
+Definition ex_att (st : istate Q) : list Q := map (fun i => sumQ (row_vals Q st i)) [0%nat; 1%nat].
+Definition ex_regv (v : nat) (st : istate Q) : list Q :=
+  map (fun i => match nth_error st v with Some (Nd rows) => sumQ (flat (nth i rows (Nd []))) | _ => 0 end) [0%nat; 1%nat].
+Definition ex_decide (u pa na pr nr tinv : Q) : bool := Qle_bool (u + (na - pa) + tinv * (nr - pr)) 1.
+Definition ex_scf : scfg := {| hist_len := 2; lo := 1 # 5; hi := 2 # 5; fac := 1 # 10 |}.
+Definition ex_acf : Anneal.cfg := {| a_on := true; n_ann := 2; T0 := 3; n_plateau := 3 |}.
+Definition ex_init : istate Q := [Nd [Nd [Sc 0; Sc 0]; Nd [Sc 0; Sc 0]]; Nd [Sc 0; Sc 0]].
+Definition ex_tape : tape Q :=
+  Build_tape [1; -1; 2; 1 # 2; 1; -2; 1; 1; -1; 3; 0; 1; 1; -1; 2; 1 # 2; 1; -2]
+             [1 # 2; 9 # 10; 1 # 10; 1 # 2; 3 # 4; 1 # 5; 1 # 2; 1 # 2; 1 # 3; 1; 0; 1 # 2].
+Definition ex_orders : list (list nat) := [[1; 0]; [0; 1]; [1; 0]]%nat.
+Definition ex_run := personalize_run Q Qplus Qmult (fun q => q) ex_decide ex_att ex_regv ex_att ex_scf ex_acf 1 true 2
+                                     ex_orders ex_init [1; 2] ex_tape.
+
+Example ex_run_done :
+  exists o, ex_run = Done o /\ length (o_all o) = 3%nat /\ length (o_hist o) = 2%nat /\
+            normals (r_tape (o_rs o)) = [] /\ uniforms (r_tape (o_rs o)) = [] /\
+            map (fun kl => map (fun r => Qred (sr_tinv r)) (snd kl)) (o_trace o) = [[1 # 3; 1 # 3]; [1 # 2; 1 # 2]; [1; 1]] /\
+            map (fun s => map Qred (std s)) (r_samp (o_rs o)) = [[9 # 20; 11 # 20]; [11 # 10; 11 # 10]] /\
+            Forall (fun od => Permutation od (seq 0 (length ex_init))) ex_orders.
+Proof.
+  destruct ex_run as [o|e] eqn:E; vm_compute in E; [|discriminate].
+  exists o. inversion E; subst o; clear E. cbn [o_all o_hist o_rs r_tape r_samp normals uniforms o_trace length].
+  repeat split; try reflexivity.
+  repeat constructor; apply perm_swap || apply Permutation_refl.
+Qed.
